@@ -108,7 +108,7 @@ def _inlinable_def(fn: ast.FunctionDef) -> bool:
         calls_with = [x for c in ast.walk(fn) if isinstance(c, ast.Call) for x in c.args if isinstance(x, ast.Starred)]
         if len(uses) != len(starred) or any(s_ not in [c.value for c in calls_with] for s_ in starred):
             return False
-    if fn.decorator_list and [ast.unparse(d) for d in fn.decorator_list] != ["staticmethod"]:
+    if fn.decorator_list and [ast.unparse(d) for d in fn.decorator_list] not in (["staticmethod"], ["classmethod"]):
         return False
     if isinstance(fn, ast.AsyncFunctionDef):
         return False
@@ -142,6 +142,7 @@ class _Counter:
     n = 0
 
 
+_BUILTIN_METHOD_NAMES = frozenset(n for t in (list, dict, set, frozenset, str, bytes, bytearray, tuple, int, float) for n in dir(t))
 _ORIG_SIZE: Dict[int, int] = {}
 _INLINED_DEFS: Set[int] = set()      # id() of every definition that was expanded at a call site in this run
 
@@ -227,6 +228,11 @@ def _expand_call(callee: ast.FunctionDef, call: ast.Call, skip_self: bool, self_
             subst[p] = v
         elif isinstance(v, ast.Constant) and isinstance(v.value, bool) and p not in reassigned:
             subst[p] = v            # a mode switch given as a literal: the body is specialised for it (folded below)
+            folded_switch = True
+        elif isinstance(v, ast.Constant) and isinstance(v.value, str) and p not in reassigned and any(
+                isinstance(c, ast.Compare) and len(c.ops) == 1 and isinstance(c.ops[0], (ast.Eq, ast.NotEq)) and isinstance(c.left, ast.Name)
+                and c.left.id == p and isinstance(c.comparators[0], ast.Constant) and isinstance(c.comparators[0].value, str) for c in ast.walk(callee)):
+            subst[p] = v            # a mode given as a string literal and compared with literals (`part == "key"`): same
             folded_switch = True
         elif isinstance(v, ast.Constant) and v.value is None and p not in reassigned and any(
                 isinstance(c, ast.Compare) and len(c.ops) == 1 and isinstance(c.ops[0], (ast.Is, ast.IsNot)) and isinstance(c.left, ast.Name)
@@ -393,6 +399,63 @@ def _simple_arg(e: ast.expr) -> bool:
     return isinstance(e, (ast.Name, ast.Constant))
 
 
+class _ExprFolder(ast.NodeTransformer):
+    """constant sub-expressions that appear when a literal argument is put in place of a parameter: identity of the singletons
+    None / True / False, isinstance of a literal, and the boolean operators / conditional expressions over the results"""
+    _SINGLE = (None, True, False)
+
+    def visit_Compare(self, node):
+        self.generic_visit(node)
+        if len(node.ops) == 1 and isinstance(node.left, ast.Constant) and isinstance(node.comparators[0], ast.Constant) \
+                and isinstance(node.ops[0], (ast.Is, ast.IsNot)) and any(node.left.value is s_ for s_ in self._SINGLE) \
+                and any(node.comparators[0].value is s_ for s_ in self._SINGLE):
+            same = node.left.value is node.comparators[0].value
+            return ast.copy_location(ast.Constant(value=same if isinstance(node.ops[0], ast.Is) else not same), node)
+        return node
+
+    def visit_Call(self, node):
+        self.generic_visit(node)
+        if isinstance(node.func, ast.Name) and node.func.id == "isinstance" and len(node.args) == 2 and not node.keywords \
+                and isinstance(node.args[0], ast.Constant):
+            names = [x.id for x in ([node.args[1]] if isinstance(node.args[1], ast.Name) else getattr(node.args[1], "elts", [])) if isinstance(x, ast.Name)]
+            kinds = {"str": str, "int": int, "bool": bool, "float": float, "bytes": bytes, "list": list, "dict": dict, "tuple": tuple}
+            if names and len(names) == len([node.args[1]] if isinstance(node.args[1], ast.Name) else node.args[1].elts) and all(n_ in kinds for n_ in names):
+                return ast.copy_location(ast.Constant(value=isinstance(node.args[0].value, tuple(kinds[n_] for n_ in names))), node)
+        return node
+
+    def visit_UnaryOp(self, node):
+        self.generic_visit(node)
+        if isinstance(node.op, ast.Not) and isinstance(node.operand, ast.Constant) and isinstance(node.operand.value, bool):
+            return ast.copy_location(ast.Constant(value=not node.operand.value), node)
+        return node
+
+    def visit_BoolOp(self, node):
+        self.generic_visit(node)
+        is_and = isinstance(node.op, ast.And)
+        vals = []
+        for v in node.values:
+            if isinstance(v, ast.Constant) and isinstance(v.value, bool):
+                if v.value is (not is_and):
+                    if not vals:
+                        return ast.copy_location(ast.Constant(value=v.value), node)
+                    vals.append(v)
+                    break
+                continue
+            vals.append(v)
+        if not vals:
+            return ast.copy_location(ast.Constant(value=is_and), node)
+        if len(vals) == 1:
+            return vals[0]
+        node.values = vals
+        return node
+
+    def visit_IfExp(self, node):
+        self.generic_visit(node)
+        if isinstance(node.test, ast.Constant) and isinstance(node.test.value, bool):
+            return node.body if node.test.value else node.orelse
+        return node
+
+
 class _ExprInliner(ast.NodeTransformer):
     """replace calls of single-`return <expr>` helpers by the expression, everywhere (comprehensions included)"""
 
@@ -439,6 +502,8 @@ class _ExprInliner(ast.NodeTransformer):
                     return ast.copy_location(copy.deepcopy(mapping[n.id]), n)
                 return n
         new = Sub().visit(copy.deepcopy(expr))
+        if any(isinstance(v_, ast.Constant) for v_ in mapping.values()):
+            new = _ExprFolder().visit(new)      # a literal argument decides what the helper asks about it
         ast.copy_location(new, node)
         ast.fix_missing_locations(new)
         self.count += 1
@@ -1623,6 +1688,26 @@ def _split_flag_ifexp(fn: ast.FunctionDef) -> bool:
             if isinstance(st, ast.Try):
                 for h in st.handlers:
                     visit(h.body)
+            # `super().extend(x if trusted else (self._validate(i) for i in x))`: one call per arm -- the arm that hands the
+            # data on unchecked then sits under the test that allows it, like in the statement form
+            if isinstance(st, (ast.Expr, ast.Return)) and isinstance(getattr(st, "value", None), ast.Call) and not st.value.keywords:
+                c_ = st.value
+                cond = [a_ for a_ in c_.args if isinstance(a_, ast.IfExp)]
+                if len(cond) == 1 and all(_simple_arg(a_) or isinstance(a_, ast.Constant) for a_ in c_.args if a_ is not cond[0]) \
+                        and (isinstance(c_.func, ast.Name) or (isinstance(c_.func, ast.Attribute) and (
+                            _plain_chain(c_.func.value) or (isinstance(c_.func.value, ast.Call) and isinstance(c_.func.value.func, ast.Name)
+                                                            and c_.func.value.func.id == "super")))):
+                    def arm_stmt(e_, st=st, c_=c_, cond=cond):
+                        ns = copy.deepcopy(st)
+                        idx = c_.args.index(cond[0])
+                        ns.value.args[idx] = copy.deepcopy(e_)
+                        return ast.copy_location(ns, st)
+                    new = ast.If(test=copy.deepcopy(cond[0].test), body=[arm_stmt(cond[0].body)], orelse=[arm_stmt(cond[0].orelse)])
+                    ast.copy_location(new, st)
+                    ast.fix_missing_locations(new)
+                    body[body.index(st)] = new
+                    changed[0] = True
+                    continue
             tgt_ = st.targets[0] if isinstance(st, ast.Assign) and len(st.targets) == 1 else (st.target if isinstance(st, ast.AnnAssign) else None)
             if isinstance(tgt_, ast.Name) and isinstance(getattr(st, "value", None), ast.IfExp) \
                     and ((flag_of(st.value.test) and tgt_.id != flag_of(st.value.test)) or adopt_or_create(st.value)):
@@ -1877,6 +1962,38 @@ def _rewrite_dict_dispatch(fn: ast.FunctionDef, dict_of) -> bool:
             else:
                 loads.setdefault(n.id, []).append(n)
     params = {a.arg for a in fn.args.posonlyargs + fn.args.args + fn.args.kwonlyargs}
+    # for the enclosing-block form: the unique assignment statement of every local, the chain of body lists around every
+    # statement, and parent links of the name loads
+    assign_of: Dict[str, ast.Assign] = {}
+    ancestors: Dict[int, tuple] = {}
+    for n in ast.walk(fn):
+        for ch in ast.iter_child_nodes(n):
+            if isinstance(ch, ast.Name):
+                ch._nparent = n  # type: ignore
+        if isinstance(n, ast.Assign) and len(n.targets) == 1 and isinstance(n.targets[0], ast.Name) and stores.get(n.targets[0].id) == 1:
+            assign_of[n.targets[0].id] = n
+
+    def index_blocks(stmts, chain_):
+        here = chain_ + (id(stmts),)
+        for st_ in stmts:
+            ancestors[id(st_)] = here
+            if isinstance(st_, (ast.FunctionDef, ast.AsyncFunctionDef, ast.ClassDef)):
+                continue
+            for f_ in ("body", "orelse", "finalbody"):
+                sub_ = getattr(st_, f_, None)
+                if isinstance(sub_, list) and sub_ and isinstance(sub_[0], ast.stmt):
+                    index_blocks(sub_, here)
+            if isinstance(st_, ast.Try):
+                for h_ in st_.handlers:
+                    index_blocks(h_.body, here)
+    index_blocks(fn.body, ())
+    order: Dict[int, int] = {}
+
+    def number(n_):
+        order[id(n_)] = len(order)
+        for ch_ in ast.iter_child_nodes(n_):
+            number(ch_)
+    number(fn)
 
     def lookup(e):
         """(rows, key expr, default expr or None) of TABLE.get(K[, D]) / TABLE[K]"""
@@ -1933,7 +2050,7 @@ def _rewrite_dict_dispatch(fn: ast.FunctionDef, dict_of) -> bool:
                 for h in st.handlers:
                     visit(h.body)
             # `x = TABLE.get(k) if cond else None`: the conditional assignment as the statement it abbreviates
-            if isinstance(st, (ast.Return, ast.Assign)) and isinstance(getattr(st, "value", None), ast.IfExp) and not (
+            if phase[0] == 1 and isinstance(st, (ast.Return, ast.Assign)) and isinstance(getattr(st, "value", None), ast.IfExp) and not (
                     isinstance(st, ast.Assign) and not (len(st.targets) == 1 and isinstance(st.targets[0], ast.Name))) \
                     and (lookup(st.value.body) is not None or lookup(st.value.orelse) is not None):
                 def arm(v, st=st):
@@ -1946,7 +2063,7 @@ def _rewrite_dict_dispatch(fn: ast.FunctionDef, dict_of) -> bool:
                 changed[0] = True
                 continue
             # the looked-up entry itself: `pair = TABLE[key]` / `return TABLE.get(key, default)`
-            if isinstance(st, (ast.Return, ast.Assign)) and getattr(st, "value", None) is not None and not (
+            if phase[0] == 1 and isinstance(st, (ast.Return, ast.Assign)) and getattr(st, "value", None) is not None and not (
                     isinstance(st, ast.Assign) and not (len(st.targets) == 1 and isinstance(st.targets[0], ast.Name))):
                 lk0 = lookup(st.value)
                 if lk0 is not None and isinstance(st, ast.Assign):
@@ -1984,13 +2101,71 @@ def _rewrite_dict_dispatch(fn: ast.FunctionDef, dict_of) -> bool:
                     call = cands[0]
             if call is not None and not any(isinstance(a, ast.Starred) for a in call.args):
                 # written in place
-                lk = lookup(call.func)
+                lk = lookup(call.func) if phase[0] == 1 else None
                 if lk is not None and stable(lk[1]):
                     body[i:i + 1] = chain(st, call, *lk)
                     changed[0] = True
                     continue
+                # through a local bound once by a statement of an enclosing block (the call may sit inside a try: / if:), where the
+                # local is otherwise only tested for None (`p = TABLE.get(k) if k else None` / `if p is None: ...` / `p(x)`):
+                # the call is written out, the binding stays for the tests
+                if isinstance(call.func, ast.Name) and stores.get(call.func.id) == 1 and call.func.id not in params \
+                        and not getattr(call, "_dispatched", False):
+                    nm = call.func.id
+                    A = assign_of.get(nm)
+                    lkc = None
+                    if A is not None:
+                        v = A.value
+                        if isinstance(v, ast.IfExp) and isinstance(v.orelse, ast.Constant) and v.orelse.value is None:
+                            v = v.body
+                        elif isinstance(v, ast.IfExp) and isinstance(v.body, ast.Constant) and v.body.value is None:
+                            v = v.orelse
+                        lkc = lookup(v)
+                    if lkc is not None and stable(lkc[1]) and not isinstance(lkc[1], ast.Constant):
+                        others = [u for u in loads.get(nm, []) if u is not call.func]
+                        def none_tested(u):
+                            par = getattr(u, "_nparent", None)
+                            if isinstance(par, ast.Compare) and len(par.ops) == 1 and isinstance(par.ops[0], (ast.Is, ast.IsNot, ast.Eq, ast.NotEq)) \
+                                    and isinstance(par.comparators[0], ast.Constant) and par.comparators[0].value is None and par.left is u:
+                                return True
+                            if isinstance(par, ast.UnaryOp) and isinstance(par.op, ast.Not):
+                                return True
+                            return isinstance(par, (ast.If, ast.While, ast.IfExp)) and par.test is u
+                        kn = {n.id for n in ast.walk(lkc[1]) if isinstance(n, ast.Name)}
+                        # (positions in the tree, not line numbers: expanded code keeps the lines of the file it came from)
+                        later_store = any(isinstance(n, ast.Name) and isinstance(n.ctx, ast.Store) and n.id in kn and order.get(id(n), 0) > order.get(id(A), 0)
+                                          for n in ast.walk(fn))
+                        encl = ancestors.get(id(st), ())
+                        if others and all(none_tested(u) for u in others) and not later_store and order.get(id(A), 0) < order.get(id(st), 0) \
+                                and ancestors.get(id(A), (None,))[-1] in encl:
+                            rows_, key_, default_ = lkc
+                            if default_ is None or (isinstance(default_, ast.Constant) and default_.value is None):
+                                default_ = ast.Name(id="__not_callable__", ctx=ast.Load())     # calling None: TypeError
+                            call._dispatched = True
+                            # the binding is kept for the None tests only: it no longer needs to hold the callables themselves
+                            # (which would count as passing them around) -- `k in (<keys>)` says the same about None-ness
+                            if all(isinstance(v_, (ast.Name, ast.Attribute, ast.Lambda)) for _, v_ in rows_) and isinstance(v, ast.Call):
+                                marker = ast.IfExp(test=ast.Compare(left=copy.deepcopy(key_), ops=[ast.In()],
+                                                                    comparators=[ast.Tuple(elts=[copy.deepcopy(k_) for k_, _ in rows_], ctx=ast.Load())]),
+                                                   body=ast.Constant(value=True), orelse=copy.deepcopy(lkc[2]) if lkc[2] is not None else ast.Constant(value=None))
+                                ast.copy_location(marker, v)
+                                ast.fix_missing_locations(marker)
+                                if A.value is v:
+                                    A.value = marker
+                                elif isinstance(A.value, ast.IfExp) and A.value.body is v:
+                                    A.value.body = marker
+                                elif isinstance(A.value, ast.IfExp) and A.value.orelse is v:
+                                    A.value.orelse = marker
+                            new_stmts = chain(st, call, rows_, key_, default_)
+                            for ns in new_stmts:
+                                for c_ in ast.walk(ns):
+                                    if isinstance(c_, ast.Call):
+                                        c_._dispatched = True
+                            body[i:i + 1] = new_stmts
+                            changed[0] = True
+                            continue
                 # through a local bound once, just before or earlier in this block, and only ever called
-                if isinstance(call.func, ast.Name) and stores.get(call.func.id) == 1 and call.func.id not in params:
+                if phase[0] == 1 and isinstance(call.func, ast.Name) and stores.get(call.func.id) == 1 and call.func.id not in params:
                     nm = call.func.id
                     for j in range(i - 1, -1, -1):
                         prev = body[j]
@@ -2008,6 +2183,9 @@ def _rewrite_dict_dispatch(fn: ast.FunctionDef, dict_of) -> bool:
                                     i -= 1
                             break
             i += 1
+    phase = [0]         # first the calls through a local that is also tested (the binding must still be in its original form)
+    visit(fn.body)
+    phase[0] = 1
     visit(fn.body)
     return changed[0]
 
@@ -2207,6 +2385,7 @@ def _adopt_recursive_delegates(modules: Dict[str, ast.Module], is_new) -> List[s
     delegation, is what they are) -- the rules anchored in the method read the algorithm where they expect it."""
     log: List[str] = []
     funcs: Dict[str, List[tuple]] = {}
+    class_defs_all = [n for m in modules.values() for n in m.body if isinstance(n, ast.ClassDef)]
     for mn, m in modules.items():
         for n in m.body:
             if isinstance(n, ast.FunctionDef):
@@ -2218,7 +2397,8 @@ def _adopt_recursive_delegates(modules: Dict[str, ast.Module], is_new) -> List[s
                 if len(body) != 1 or not isinstance(body[0], ast.Return) or not isinstance(body[0].value, ast.Call):
                     continue
                 call = body[0].value
-                if not isinstance(call.func, ast.Name) or call.keywords or not is_new(call.func.id) or len(funcs.get(call.func.id, [])) != 1:
+                if not isinstance(call.func, ast.Name) or call.keywords or not (is_new(call.func.id) or call.func.id == meth.name) \
+                        or len(funcs.get(call.func.id, [])) != 1:
                     continue
                 if meth.decorator_list or not meth.args.args:
                     continue
@@ -2234,8 +2414,9 @@ def _adopt_recursive_delegates(modules: Dict[str, ast.Module], is_new) -> List[s
                 if not self_calls or any(x.keywords or len(x.args) != len(fparams) for x in self_calls):
                     continue
                 others = [x for m2 in modules.values() for x in ast.walk(m2) if isinstance(x, ast.Name) and x.id == f.name and isinstance(x.ctx, ast.Load)]
-                if len(others) != len(self_calls) + 1:
-                    continue            # somebody else calls (or passes around) the function
+                exclusive = len(others) == len(self_calls) + 1      # nobody else calls (or passes around) the function
+                if not exclusive and sum(1 for k_ in class_defs_all if any(isinstance(x, ast.FunctionDef) and x.name == meth.name for x in k_.body)) > 1:
+                    continue            # shared with other callers *and* the method is overridden somewhere: not the same recursion
                 if _has(f, (ast.Yield, ast.YieldFrom, ast.Await, ast.Global, ast.Nonlocal)) or any(
                         isinstance(x, (ast.FunctionDef, ast.Lambda)) and x is not f for x in ast.walk(f)):
                     continue
@@ -2264,7 +2445,8 @@ def _adopt_recursive_delegates(modules: Dict[str, ast.Module], is_new) -> List[s
                 doc = [st for st in meth.body if st not in body]
                 meth.body = doc + [R().visit(st) for st in new_body]
                 ast.fix_missing_locations(meth)
-                modules[fmn].body.remove(f)
+                if exclusive:
+                    modules[fmn].body.remove(f)
                 log.append("%s.%s: the recursive function %s it delegated to is written back into it" % (c.name, meth.name, f.name))
     return log
 
@@ -2354,7 +2536,7 @@ def _push_down_new_bases(modules: Dict[str, ast.Module]) -> List[str]:
     the same as defining a copy of it: every method a known class inherits from a new class of the package is copied into the
     known class (zero-argument `super()` in the copy becomes `super(<the new base>, self)`, which means the same thing there).
     Hooks called on self in the copy then resolve against the known class, where the usual inlining writes them out."""
-    from .known_names import KNOWN_CLASSES
+    from .known_names import KNOWN_CLASSES, KNOWN_NAMES
     log: List[str] = []
     class_defs: Dict[str, ast.ClassDef] = {}
     for m in modules.values():
@@ -2391,8 +2573,10 @@ def _push_down_new_bases(modules: Dict[str, ast.Module]) -> List[str]:
 
     new_bases = {bn for cn in class_defs for bn in mro(cn)[1:] if bn not in KNOWN_CLASSES}
     copied: Dict[str, Dict[str, Set[str]]] = {}      # new base -> method -> classes that received a copy
+    has_new_methods = {bn for bn, b in class_defs.items() if bn in KNOWN_CLASSES and any(
+        isinstance(n, ast.FunctionDef) and n.name not in KNOWN_NAMES and not (n.name.startswith("__") and n.name.endswith("__")) for n in b.body)}
     for cn, c in class_defs.items():
-        if cn not in KNOWN_CLASSES and not (set(mro(cn)[1:]) & new_bases):
+        if not (set(mro(cn)[1:]) & (new_bases | has_new_methods)):
             continue
         order = mro(cn)
         own = {n.name for n in c.body if isinstance(n, (ast.FunctionDef, ast.AsyncFunctionDef))}
@@ -2400,11 +2584,13 @@ def _push_down_new_bases(modules: Dict[str, ast.Module]) -> List[str]:
                      if isinstance(t, ast.Name)}
         for bn in order[1:]:
             b = class_defs[bn]
-            if bn in KNOWN_CLASSES:
-                # a known class further up defines it: what it defines shadows everything behind it
-                own |= {n.name for n in b.body if isinstance(n, (ast.FunctionDef, ast.AsyncFunctionDef))}
-                continue
+            known_base = bn in KNOWN_CLASSES
             for n in b.body:
+                # from a new base class: every method; from a known one: the methods that are new there (a shared helper moved up
+                # into an existing mixin is inherited -- and overridden by siblings -- just the same)
+                if known_base and not (isinstance(n, ast.FunctionDef) and n.name not in KNOWN_NAMES
+                                       and not (n.name.startswith("__") and n.name.endswith("__"))):
+                    continue
                 if isinstance(n, ast.FunctionDef) and n.name not in own and n.args.args:
                     decos = [ast.unparse(d) for d in n.decorator_list]
                     if decos and decos != ["property"]:
@@ -2416,10 +2602,14 @@ def _push_down_new_bases(modules: Dict[str, ast.Module]) -> List[str]:
                             x.args = [ast.Name(id=bn, ctx=ast.Load()), ast.Name(id=sname, ctx=ast.Load())]
                     ast.fix_missing_locations(cp)
                     cp._pushed_from = bn  # type: ignore
+                    cp._origin = getattr(n, "_origin", id(n))  # type: ignore
                     c.body.append(cp)
                     own.add(n.name)
                     copied.setdefault(bn, {}).setdefault(n.name, set()).add(cn)
-                    log.append("%s.%s: copied from the new base class %s" % (cn, n.name, bn))
+                    log.append("%s.%s: copied from the %s base class %s" % (cn, n.name, "known" if known_base else "new", bn))
+            if known_base:
+                # what a known class further up defines shadows everything behind it
+                own |= {n.name for n in b.body if isinstance(n, (ast.FunctionDef, ast.AsyncFunctionDef))}
     # a new base class that the package never instantiates and that has subclasses is abstract: a method of it that every
     # subclass now defines itself (or gets from a class in between) and that nothing reaches through super() / by naming
     # the class is dead there -- analysing it on its own would judge hooks no object ever runs
@@ -2623,10 +2813,43 @@ def normalize_module_trees(modules: Dict[str, ast.Module]) -> List[str]:
                             # a new helper defined in another module of the package and imported by name
                             owners_m = module_funcs.get(nm) or []
                             if private(nm) and len(owners_m) == 1 and owners_m[0] != mn and nm not in non_call_refs and nm not in closures \
-                                    and nm not in method_owner and nm in module_imports.get(mn, ()):
+                                    and nm not in method_owner and (nm in module_imports.get(mn, ()) or moved_global(nm, mn, owners_m[0])):
                                 d = [n for n in modules[owners_m[0]].body if isinstance(n, ast.FunctionDef) and n.name == nm]
                                 if d and _inlinable_def(d[0]) and not _calls(d[0], nm):
                                     return d[0], False, None
+                            return None
+                        if isinstance(f, ast.Attribute) and isinstance(f.value, ast.Call) and isinstance(f.value.func, ast.Name) and f.value.func.id == "super" \
+                                and cls is not None and self_name and not f.value.keywords and len(f.value.args) in (0, 2):
+                            # super().<new helper>(...): the next definition behind this class (behind K for super(K, self))
+                            nm = f.attr
+                            if not private(nm) or nm in non_call_refs:
+                                return None
+                            start = cls.name
+                            if f.value.args:
+                                if not (isinstance(f.value.args[0], ast.Name) and f.value.args[0].id in class_defs):
+                                    return None
+                                start = f.value.args[0].id
+                            if any(o != cls.name and derives(o, cls.name) for o in class_defs):
+                                return None     # a subclass of this class changes what super() means for its instances
+                            def lin(cn_, seen_=None):
+                                seen_ = seen_ if seen_ is not None else []
+                                if cn_ in seen_ or cn_ not in class_defs:
+                                    return seen_
+                                seen_.append(cn_)
+                                for b_ in class_defs[cn_].bases:
+                                    bn_ = b_.id if isinstance(b_, ast.Name) else (b_.attr if isinstance(b_, ast.Attribute) else None)
+                                    if bn_:
+                                        lin(bn_, seen_)
+                                return seen_
+                            order_ = lin(cls.name)
+                            if start not in order_:
+                                return None
+                            for kn_ in order_[order_.index(start) + 1:]:
+                                dd = [n for n in class_defs[kn_].body if isinstance(n, ast.FunctionDef) and n.name == nm]
+                                if dd:
+                                    if dd[0] is fn or not _inlinable_def(dd[0]) or _calls(dd[0], nm) or dd[0].decorator_list:
+                                        return None
+                                    return dd[0], True, ast.Name(id=self_name, ctx=ast.Load())
                             return None
                         if isinstance(f, ast.Attribute) and isinstance(f.value, ast.Name) and f.value.id in class_defs and f.value.id != self_name:
                             # a new helper method called through its class: Config._link_child(parent, child, ...) -- every
@@ -2652,6 +2875,8 @@ def normalize_module_trees(modules: Dict[str, ast.Module]) -> List[str]:
                             nm = f.attr
                             if not private(nm) or nm in non_call_refs or nm in module_funcs:
                                 return None
+                            if nm in _BUILTIN_METHOD_NAMES:
+                                return None     # `keys.add(k)` on a builtin set is not the `add` a new proxy class defines
                             owners = method_owner.get(nm) or []
                             if len(owners) != 1:
                                 return None
@@ -2662,6 +2887,8 @@ def normalize_module_trees(modules: Dict[str, ast.Module]) -> List[str]:
                             decos = [ast.unparse(x) for x in d[0].decorator_list]
                             if "staticmethod" in decos:
                                 return d[0], False, None
+                            if "classmethod" in decos:
+                                return None
                             if isinstance(f.value, ast.Name) and f.value.id in module_imports.get(mn, ()):     # module.function(...)
                                 return None
                             return d[0], True, f.value
@@ -2670,20 +2897,43 @@ def normalize_module_trees(modules: Dict[str, ast.Module]) -> List[str]:
                             if not private(nm) or nm in non_call_refs:
                                 return None
                             owners = method_owner.get(nm) or []
-                            if cls.name in owners and len(owners) > 1:
-                                # also defined by unrelated classes: fine as long as no subclass of this class overrides it
-                                if any(o != cls.name and derives(o, cls.name) for o in owners):
+                            # the definition an instance of this class runs: the first one along the class's bases ...
+                            def lin_(cn_, seen_=None):
+                                seen_ = seen_ if seen_ is not None else []
+                                if cn_ in seen_ or cn_ not in class_defs:
+                                    return seen_
+                                seen_.append(cn_)
+                                for b_ in class_defs[cn_].bases:
+                                    bn_ = b_.id if isinstance(b_, ast.Name) else (b_.attr if isinstance(b_, ast.Attribute) else None)
+                                    if bn_:
+                                        lin_(bn_, seen_)
+                                return seen_
+                            d = None
+                            for kn_ in lin_(cls.name):
+                                dd = [n for n in class_defs[kn_].body if isinstance(n, ast.FunctionDef) and n.name == nm]
+                                if dd:
+                                    d = dd
+                                    break
+                            if d is None:
+                                # ... or, for a mixin that is not among the bases (duck-typed helper), the only one in the package
+                                if len(owners) != 1:
                                     return None
-                                owners = [cls.name]
-                            if len(owners) != 1:
-                                return None
-                            # defined in this class, or once in another class of the package (a base class / mixin)
-                            oc = cls if owners == [cls.name] else class_defs[owners[0]]
-                            d = [n for n in oc.body if isinstance(n, ast.FunctionDef) and n.name == nm]
+                                d = [n for n in class_defs[owners[0]].body if isinstance(n, ast.FunctionDef) and n.name == nm]
+                            # ... unless a subclass of this class overrides it (a copy of the same definition, made when methods
+                            # of new bases were copied down, is no override)
+                            org = getattr(d[0], "_origin", id(d[0])) if d else None
+                            for o in owners:
+                                if o != cls.name and derives(o, cls.name):
+                                    od = [n for n in class_defs[o].body if isinstance(n, ast.FunctionDef) and n.name == nm]
+                                    if od and getattr(od[0], "_origin", id(od[0])) != org:
+                                        return None
                             if not d or d[0] is fn or not _inlinable_def(d[0]) or _calls(d[0], nm):
                                 return None
                             if "staticmethod" in [ast.unparse(x) for x in d[0].decorator_list]:
                                 return d[0], False, None
+                            if "classmethod" in [ast.unparse(x) for x in d[0].decorator_list] and \
+                                    "classmethod" not in [ast.unparse(x) for x in fn.decorator_list]:
+                                return None     # self.helper() of a classmethod: the receiver becomes type(self)
                             return d[0], True, f.value
                         return None
 
